@@ -27,8 +27,9 @@ PROPS = {
                  "packets, with an independent grant-overlap monitor on the tapped frames."
                  " The lease database below the handlers is on the regenerated code too: every method of *IPDB (UpdateClient, FindIP, LookupClientByDuid, AddPermanentClient, ...) and every method of the clients table (Lookup, Inject, SetLease, ... with its Go map and record pointers), as translated from the source on every run, equal the model operations the invariants are proved over (C11Code, C11CodeClients)."
                  " The packet handlers (handleMsg, handleDiscover, handleRequest, sendMsg, sendNACK, getDuid) as translated from the source on every run, executed over the model's database steps and handler oracle, end in exactly the database and frame of the model's handle (C04Code)."
-                 " Composed: the translated handlers running on top of the translated lease database (their database calls answered by actually running Gen.ipdb.*) still end in the database and frame of the model's handle (C01CodeStack.code_stack_handleMsg).",
-        "props": ["C01", "C02Code", "C11Code", "C11CodeClients", "C04Code", "C01CodeStack"],
+                 " Composed: the translated handlers running on top of the translated lease database (their database calls answered by actually running Gen.ipdb.*) still end in the database and frame of the model's handle (C01CodeStack.code_stack_handleMsg, code_stack_sequence for whole sequential histories)."
+                 " The three layers composed: with the translated clients.go as the store (genStore: Gen.clients.* on the Go map and record heap), the system model sends from boot, for every interleaving, exactly the replies it sends over the reference table (C01CodeFull.code_system_refines_table), and any sequential history pushed through Gen.server.* over Gen.ipdb.* over Gen.clients.* never panics and sends the frames of the model (code_full_handleMsg, code_full_sequence).",
+        "props": ["C01", "C02Code", "C11Code", "C11CodeClients", "C04Code", "C01CodeStack", "C01CodeFull"],
         "streams": [{"test": "TestSrvSeq", "names": ["srvseq"], "timeout": 300}, {"test": "TestSrvConc", "names": ["srvconc"], "timeout": 300},
                     {"test": "TestDbConc", "names": ["dbconc"], "timeout": 300},
                     {"test": "TestIpdb", "names": ["ipdb"], "timeout": 300}],
@@ -52,7 +53,8 @@ PROPS = {
                  " fromTo/toUip/InManagedRange and duidFromHwAddr as translated from the source on every run equal the models (C02Code, C11Code)."
                  " The constructor that sets the managed range, the dynamic range and static_only is on the regenerated code too (C18Code).",
         "props": ["C02", "C11Code", "C02Code", "C18Code"],
-        "streams": [{"test": "TestSrvSeq", "names": ["srvseq"], "timeout": 300}, {"test": "TestCfgNew", "names": ["cfgnew"], "timeout": 300}],
+        "streams": [{"test": "TestSrvSeq", "names": ["srvseq"], "timeout": 300}, {"test": "TestCfgNew", "names": ["cfgnew"], "timeout": 300},
+                    {"test": "TestIpdb", "names": ["ipdb"], "timeout": 600}],
         "rule": "as C01 (configurations enumerate range positions, statics inside/outside the range, static_only; suggestions drawn from {in range, "
                 "below/above range, network/broadcast address, server address, other network, 0.0.0.0, a static, the host's last offer}) plus the "
                 "valid configurations of the C18 stream; non-trivial = the server answered",
@@ -167,8 +169,9 @@ PROPS = {
                  "concurrent calls on the real IPDB checked against all sequential orders."
                  " The receive loop as translated from the source on every run copies every packet out of the receive buffer before decoding it and hands each handler its own decoded message (C10Code.code_run): what a handler gets is a function of its own frame."
                  " The packet handlers (handleMsg, handleDiscover, handleRequest, sendMsg, sendNACK, getDuid) as translated from the source on every run, executed over the model's database steps and handler oracle, end in exactly the database and frame of the model's handle (C04Code)."
-                 " Composed: the translated handlers running on top of the translated lease database (their database calls answered by actually running Gen.ipdb.*) still end in the database and frame of the model's handle (C01CodeStack.code_stack_handleMsg).",
-        "props": ["C09", "C10Code", "C04Code", "C01CodeStack"],
+                 " Composed: the translated handlers running on top of the translated lease database (their database calls answered by actually running Gen.ipdb.*) still end in the database and frame of the model's handle (C01CodeStack.code_stack_handleMsg)."
+                 " With the translated clients.go underneath as well, the interleaved system model sends the replies of the reference-table system for every schedule (C01CodeFull.code_system_refines_table).",
+        "props": ["C09", "C10Code", "C04Code", "C01CodeStack", "C01CodeFull"],
         "streams": [{"test": "TestSrvConc", "names": ["srvconc"], "timeout": 300}, {"test": "TestDbConc", "names": ["dbconc"], "timeout": 300},
                     {"test": "TestCfgOptions", "names": ["cfgopts"], "timeout": 300},
                     {"test": "TestSrvConc", "names": ["srvconc-race"], "timeout": 300, "race": True, "env": {"HX_N": "16", "HX_SUFFIX": "-race"},
@@ -209,8 +212,9 @@ PROPS = {
                  "the FindIP postconditions — Lean theorems for all histories; tied to the code by exhaustive small-scope and random differential "
                  "runs of the real clients/ipdb packages under a virtual clock."
                  " Uip.Valid/ToV4 as translated from the source equal the model's (C11Code)."
-                 " The whole lease database is on the regenerated code: the *IPDB methods of ipdb.go over an abstract clients store (C11Code), the clients table of clients.go with its Go map keyed by Uip.String()/Duid.String() and its heap of records (C11CodeClients), and the injectivity/disjointness of those key strings (C07Code) — each translated function proved equal to the model operation that clients_refine/ipdb_refine relate to the reference table.",
-        "props": ["C11", "C11Code", "C11CodeClients", "C07Code"],
+                 " The whole lease database is on the regenerated code: the *IPDB methods of ipdb.go over an abstract clients store (C11Code), the clients table of clients.go with its Go map keyed by Uip.String()/Duid.String() and its heap of records (C11CodeClients), and the injectivity/disjointness of those key strings (C07Code) — each translated function proved equal to the model operation that clients_refine/ipdb_refine relate to the reference table."
+                 " Vertically composed: the translated clients.go is itself a store (genStore) that simulates Model/Clients.lean operation by operation (C01CodeFull.genStore_sim) and below which the system sends exactly the replies of the reference-table system (code_system_refines_table).",
+        "props": ["C11", "C11Code", "C11CodeClients", "C07Code", "C01CodeFull"],
         "streams": [{"test": "TestClients", "names": ["clients"], "timeout": 600}, {"test": "TestIpdb", "names": ["ipdb"], "timeout": 600}],
         "rule": "Clients API: ALL operation sequences up to length 3 (quick; 4 thorough, depth 4 over a reduced alphabet) over 2 addresses x 2 clients x "
                 "lifetimes {-1,+1,+5} x clock steps {0,2} (72 symbols), DFS with shared prefixes; random sequences up to length 200 over 3 addresses x "
@@ -368,7 +372,7 @@ PROPS = {
                  "with the Go codecs and an independent RFC 1071/768 monitor."
                  " The same clauses are proved for the CODE as translated from lib/layer/*.go on every run (C13Code: Gen.f = model f for ipv4csum, setV4Checksum, udp4csum, pseudohdrcsum, the three Assemble and three Decode functions; code_ip_checksum_verifies, code_udp_checksum_verifies, code_decoder_strict_ip/udp, code_decoders_never_panic).",
         "props": ["C13", "C13Code"],
-        "streams": [{"test": "TestWire", "names": ["wire"], "timeout": 300}],
+        "streams": [{"test": "TestWire", "names": ["wire"], "timeout": 300}, {"test": "TestCliTmpl", "names": ["clitmpl"], "timeout": 600}],
         "rule": "UDP-in-IPv4 assembly over payload lengths {0..64, 1471..1473, 65505..65507, beyond the maximum} x byte patterns "
                 "(zeros, 0xff, alternating, random) x address forms, decoders on mutated valid frames and random bytes, ARP round trips; "
                 "non-trivial = assemble case or accepted decode",
